@@ -156,7 +156,7 @@ func (x *Exec) enterBlock(st *State, fr *Frame, b *ssa.BasicBlock) bool {
 				}
 				x.nextAltGoal = implies(and(ground...), g)
 				x.nextAltGoal2 = implies(and(simple...), g)
-				x.addCheck(st, fr, fmt.Sprintf("loop#%d/inv#%d/preserve", ord, j+1), implies(and(prev...), g), b.Instrs[0].Pos(), inv.Text)
+				x.addCheck(st, fr, fmt.Sprintf("%s/inv#%d/preserve", loopName(fr, ord), j+1), implies(and(prev...), g), b.Instrs[0].Pos(), inv.Text)
 				x.nextFocus = ""
 				x.nextAltGoal = T{}
 				x.nextAltGoal2 = T{}
@@ -165,7 +165,7 @@ func (x *Exec) enterBlock(st *State, fr *Frame, b *ssa.BasicBlock) bool {
 		}
 		if hs := x.loopFrameHeaps[b]; len(hs) > 0 {
 			g := x.frameGoal(st, topFrame(fr), hs, declConst("frame.r", SInt))
-			x.addCheck(st, fr, fmt.Sprintf("loop#%d/frame/preserve", ord), g, b.Instrs[0].Pos(), "the loop keeps the function's frame")
+			x.addCheck(st, fr, fmt.Sprintf("%s/frame/preserve", loopName(fr, ord)), g, b.Instrs[0].Pos(), "the loop keeps the function's frame")
 		}
 		return false
 	}
@@ -174,7 +174,7 @@ func (x *Exec) enterBlock(st *State, fr *Frame, b *ssa.BasicBlock) bool {
 		var prev []T
 		for j, inv := range spec.Invariants {
 			g := x.evalClause(ctx, inv, c)
-			x.addCheck(st, fr, fmt.Sprintf("loop#%d/inv#%d/init", ord, j+1), implies(and(prev...), g), b.Instrs[0].Pos(), inv.Text)
+			x.addCheck(st, fr, fmt.Sprintf("%s/inv#%d/init", loopName(fr, ord), j+1), implies(and(prev...), g), b.Instrs[0].Pos(), inv.Text)
 			prev = append(prev, g)
 		}
 	}
@@ -268,7 +268,7 @@ func (x *Exec) enterBlock(st *State, fr *Frame, b *ssa.BasicBlock) bool {
 		if x.dry == 0 {
 			x.loopFrameHeaps[b] = wholeHeaps
 			g := x.frameGoal(st, tf, wholeHeaps, declConst("frame.r", SInt))
-			x.addCheck(st, fr, fmt.Sprintf("loop#%d/frame/init", ord), g, b.Instrs[0].Pos(), "the function's frame holds at loop entry")
+			x.addCheck(st, fr, fmt.Sprintf("%s/frame/init", loopName(fr, ord)), g, b.Instrs[0].Pos(), "the function's frame holds at loop entry")
 		}
 	}
 	if spec != nil && !spec.Flags["keepquant"] {
@@ -543,4 +543,16 @@ func (x *Exec) localSV(st *State, fr *Frame, name string) (SV, bool) {
 		return SV{addr: a, typ: t}, true
 	}
 	return SV{t: st.load(a), typ: t}, true
+}
+
+// loopName names loop #ord of the frame's function; loops of a callee executed in place carry the callee's name.
+func loopName(fr *Frame, ord int) string {
+	if fr.parent == nil {
+		return fmt.Sprintf("loop#%d", ord)
+	}
+	n := fr.fn.Name()
+	if r := fr.fn.Signature.Recv(); r != nil {
+		n = strings.TrimPrefix(strings.TrimPrefix(types.TypeString(r.Type(), func(*types.Package) string { return "" }), "*"), ".") + "." + n
+	}
+	return fmt.Sprintf("loop#%d@%s", ord, n)
 }
